@@ -63,8 +63,11 @@ def check(run):
   run.bounds = {'clients': '1..4', 'cohort': '1..clients', 'requested rounds': '2 (symbolic draws) or 3 (fixed draws) from {0,1,2,5} in any order with repeats',
                 'streaming sampler': 'clients 2..4, cohort 1..2, restart at round 0..2, seeds 0 and 3'}
   # oracle accepts the real sampler on the repo's own test-like input
-  ok = not replay_fn((4, 2, 0), 'get_sampler3', {'i1': 2, 'i2': 0, 'i3': 2})[0] and not replay_fn((3, 2, 0), 'stream_sampler', {'n': 3, 'cohort': 2, 'start': 1, 'seed0': False})[0]
-  run.witness('oracle-accepts-real-code-on-test-inputs', 'translation', ok)
+  for cfgp, funcp, ap in (((4, 2, 0), 'get_sampler3', {'i1': 2, 'i2': 0, 'i3': 2}), ((4, 4, 1), 'get_sampler3', {'i1': 0, 'i2': 1, 'i3': 0}),
+                          ((3, 2, 0), 'stream_sampler', {'n': 3, 'cohort': 2, 'start': 1, 'seed0': False}),
+                          ((3, 2, 0), 'stream_sampler', {'n': 4, 'cohort': 2, 'start': 2, 'seed0': True})):
+    bad, msg = replay_fn(cfgp, funcp, ap)
+    xh.concrete_probe(run, '%s%s%s' % (funcp, cfgp, sorted(ap.items())), bad, msg, {'func': funcp, 'args': repr(dict(ap, cfg=list(cfgp)))})
   jobs, meta = [], []
   for c in g:
     jobs.append((HARNESS, 'get_sampler', timeout, {'C13_CFG': ','.join(map(str, c))}))
